@@ -864,7 +864,12 @@ class TorConfig:
                 v = _ListWrapper(
                     v, functools.partial(self.mark_unsaved, real_name))
             elif real_name in self.parsers:
-                v = self.parsers[real_name].parse(v)
+                if v == DEFAULT_VALUE:
+                    # the option was reset: as at bootstrap, that
+                    # reads as Tor's default (if it told us one)
+                    v = self._defaults.get(real_name, DEFAULT_VALUE)
+                if v != DEFAULT_VALUE:
+                    v = self.parsers[real_name].parse(v)
             self.config[real_name] = v
 
     def bootstrap(self, arg=None):
